@@ -470,5 +470,6 @@ def run(tier, seed, replay=None):
         "cfg_model_diffs": model_diffs, "parser_glue_mismatches": glue_bad, "cpython_outside_live": cpy_not_in_live, "flagged_live_lines": nviol_pairs,
         "distribution": hist,
         "mirror_theorem_fragment": frag,
+        "whole_graph_comparisons": dict(cfgeng.GRAPH_STATS),
     })
     return res.finish("proof")
